@@ -9,6 +9,7 @@ CONSTANT Goal
 
 Reached ==
   CASE Goal = "retry"      -> retried \cap acked # {} /\ Idle
+    [] Goal = "retry2"     -> retried2 \cap acked # {} /\ Idle     \* one write outlived two pairs of rotations
     [] Goal = "lost"       -> lost # {} /\ Idle
     [] Goal = "leak"       -> Idle /\ running /\ Cardinality(OpenHandles) > 2
     [] Goal = "backwards"  -> \E w \in Writers : pc[w] = "p7" /\ Ivl(wNow[w]) < marker
@@ -20,4 +21,11 @@ Reached ==
     [] Goal = "stalewrite" -> \E w \in Writers : pc[w] = "p22" /\ wFile[w] # NULL /\ wFile[w] # file /\ wId[w] \notin lost
     [] OTHER -> FALSE
 NotGoal == ~Reached
+\* deep goals are searched along one lane of the interleaving space (a CONSTRAINT, so only the search is narrowed -
+\* whatever is found is still a behaviour of Rolling.tla): everybody but writer 2 moves only while writer 2 is parked
+\* between loading the file and writing to it
+Lane == Goal = "retry2" =>
+          /\ \A w \in Writers : (w # 2 /\ pc[w] # "idle") => (pc[2] = "p21" /\ now % TPI = 0)
+          /\ (nWrites > 0 => wId[2] = 1)              \* writer 2 issues the first write and holds it
+          /\ (pc[2] \notin {"p21", "idle"} => now = 0 \/ now = MaxTick)
 =============================================================================
